@@ -84,8 +84,9 @@ Definition step (cfg : list Z) (st : slots) (o : zop) : slots * list Z :=
                             negb (N.of_nat (length bs) <? 16 + (entries + 1) * 8)%N in
              if present && (64 * N.of_nat (length bs) + 1048576 <? entries * ty_size ty)%N
              then (set_nth (Z.to_nat slot) None st, ALLOC)
-             else match cm_deserialize mx sh bs with
-                  | Ok s' => (put_slot st slot s', [1])
+             else match cm_deserialize_sg (4 <=? ty) mx sh bs with
+                  | Ok (Some s') => (put_slot st slot s', [1])
+                  | Ok None => (set_nth (Z.to_nat slot) None st, [2])   (* accepted, holds negative counters: dropped *)
                   | Err => (set_nth (Z.to_nat slot) None st, ERR)
                   | Stuck => (st, PANIC) end
          | Err => (set_nth (Z.to_nat slot) None st, ERR)
